@@ -822,6 +822,69 @@ def mon_C12(run):
     return bad[:1]
 
 
+def kvs(line):
+    return dict(w.split("=", 1) for w in line.split() if "=" in w)
+
+
+def mon_C18(case):
+    """get_pg_config(): independent re-statement of the documented rules on the harness's own
+    input description (never looks at the model)"""
+    i, o = kvs(case["in"]), case["out"] or ""
+    bad = []
+    if o.startswith("pgres panicked") or not o.startswith("pgres"):
+        return [(0, f"get_pg_config panicked / gave no result: {o[:80]}")]
+    for x in case["extra"]:
+        if x.startswith("pgpool") and not x.rstrip().endswith("problems=-"):
+            bad.append((0, "pool/manager sections or build error: " + x[:300]))
+    if i.get("base") == "err":
+        if o != "pgres err=invalid_url":
+            bad.append((0, f"invalid url but result is {o[:60]}"))
+        return bad[:1]
+    def ne(v):
+        return v not in ("-", "e", None)
+    dbname = i["dbname"] if ne(i["dbname"]) else i["b.dbname"]
+    if dbname == "-":
+        want_err = "pgres err=dbname_missing"
+    elif dbname == "e":
+        want_err = "pgres err=dbname_empty"
+    else:
+        want_err = None
+    if want_err:
+        if o != want_err:
+            bad.append((0, f"expected {want_err}, got {o[:60]}"))
+        return bad[:1]
+    if not o.startswith("pgres ok"):
+        return [(0, f"valid configuration rejected: {o[:60]}")]
+    r = kvs(o)
+    if r["dbname"] != dbname:
+        bad.append((0, f"dbname in effect {r['dbname']} != {dbname}"))
+    user = i["user"] if ne(i["user"]) else i["b.user"]
+    if not ne(user) and i["env"] != "-":
+        user = i["env"]
+    if r["user"] != user:
+        bad.append((0, f"user in effect {r['user']} != {user}"))
+    for f in ("password", "options", "app", "ssl", "cto", "ka", "kai", "tsa", "cb", "lbh"):
+        want = i[f] if i[f] != "-" else i["b." + f]
+        if r[f] != want:
+            bad.append((0, f"option {f}: set to {i[f]} (url: {i['b.' + f]}) but {r[f]} is in effect"))
+    def lst(v):
+        return [] if v in ("-", "[]") else v.split(",")
+    def host(h):
+        return ("U:" if h.startswith("2f") else "T:") + h
+    hosts = lst(i["b.hosts"]) + ([host(i["host"])] if i["host"] != "-" else []) + [host(h) for h in lst(i["hosts"])]
+    if not hosts:
+        hosts = ["U:2f72756e2f706f737467726573716c", "U:2f7661722f72756e2f706f737467726573716c", "U:2f746d70"]
+    if lst(r["hosts"]) != hosts:
+        bad.append((0, f"hosts {r['hosts']} != {','.join(hosts)}"))
+    addrs = lst(i["b.hostaddrs"]) + ([i["hostaddr"]] if i["hostaddr"] != "-" else []) + lst(i["hostaddrs"])
+    if lst(r["hostaddrs"]) != addrs:
+        bad.append((0, f"hostaddrs {r['hostaddrs']} != {addrs}"))
+    ports = lst(i["b.ports"]) + ([i["port"]] if i["port"] != "-" else []) + lst(i["ports"])
+    if lst(r["ports"]) != ports:
+        bad.append((0, f"ports {r['ports']} != {ports}"))
+    return bad[:1]
+
+
 def signature(prop, run, model_lines, diverged, k, msg, kind):
     """known-finding signature of a violation, or '' (see known_findings.txt).  A violation is
     attributed to a known finding only if the model of the pinned code reproduces the whole
@@ -1070,4 +1133,4 @@ def mon_C08(run):
     return bad[:1]
 
 
-MONITORS = {"C05": mon_C05, "C12": mon_C12, "C08": mon_C08, "C13": mon_C13, "C04": mon_C04, "C07": mon_C07, "C06": mon_C06, "C09": mon_C09, "C03": mon_C03, "C10": mon_C10, "C01": mon_C01, "C02": mon_C02, "C11": mon_C11}
+MONITORS = {"C18": mon_C18, "C05": mon_C05, "C12": mon_C12, "C08": mon_C08, "C13": mon_C13, "C04": mon_C04, "C07": mon_C07, "C06": mon_C06, "C09": mon_C09, "C03": mon_C03, "C10": mon_C10, "C01": mon_C01, "C02": mon_C02, "C11": mon_C11}
